@@ -83,6 +83,9 @@ struct C20 : Property
 		}
 		if (read_side && r.chance(1, 8))
 			text = r.pick(std::vector<std::string>{"123", "true", "\"s\"", "null", "1.5", " 7 "});
+		// bytes that are not well-formed UTF-8 (the default parser accepts them: so must the descriptor entry points)
+		if (read_side && r.chance(1, 10))
+			text = r.pick(std::vector<std::string>{"[\"caf\xe9\"]", "{\"k\":\"\xff\xfe\"}", "[\"\xe2\x82\",1]", "\"\x80\""});
 		d.data = text;
 		p.ops.push_back(d);
 		Op t;
